@@ -8,9 +8,11 @@ import (
 	"fmt"
 	"io"
 	"math/rand"
+	"net"
 	"os"
 	"os/exec"
 	"strings"
+	"sync"
 	"sync/atomic"
 	"time"
 
@@ -39,6 +41,7 @@ type hostileExtra struct {
 	Full   bool   `json:"full"`   // thorough: all 255 corruptions, more random frames
 	Skip   int    `json:"skip"`   // worker: first input index to run
 	Bursts int    `json:"bursts"` // number of burst+disconnect repetitions
+	Poll   bool   `json:"poll"`   // server side: a real poll-mode (netpoll) server on loopback TCP instead of ServeCodec
 	Limit  int    `json:"limit"`  // worker: stop before this input index (0 = none)
 	Slow   bool   `json:"slow"`   // worker: settle and probe after every input (pinpointing)
 }
@@ -218,10 +221,18 @@ func newHostileServer(mode int) (*rpc.Server, *svc.Ledger) {
 	return s, led
 }
 
+// srvConn is one client connection to the server under test: either a
+// Scripted socket.Messages served by ServeCodec, or a raw TCP connection to a
+// real (poll-mode) listener on which frames are written with their length
+// prefix.
 type srvConn struct {
 	sm   *memnet.Scripted
 	done chan struct{}
 	n    int
+	// raw TCP variant
+	tc     net.Conn
+	mu     sync.Mutex
+	frames [][]byte
 }
 
 func serveScripted(server *rpc.Server, hdr string, direct bool) *srvConn {
@@ -236,37 +247,111 @@ func serveScripted(server *rpc.Server, hdr string, direct bool) *srvConn {
 	return c
 }
 
+func dialRaw(addr string) *srvConn {
+	var tc net.Conn
+	var err error
+	for i := 0; i < 200; i++ {
+		if tc, err = net.Dial("tcp", addr); err == nil {
+			break
+		}
+		time.Sleep(5 * time.Millisecond)
+	}
+	c := &srvConn{done: make(chan struct{}), tc: tc}
+	if tc == nil {
+		close(c.done)
+		return c
+	}
+	go func() {
+		defer close(c.done)
+		var buf []byte
+		tmp := make([]byte, 65536)
+		for {
+			n, err := tc.Read(tmp)
+			if n > 0 {
+				buf = append(buf, tmp[:n]...)
+				fs, used := wire.SplitFrames(buf)
+				c.mu.Lock()
+				for _, f := range fs {
+					c.frames = append(c.frames, append([]byte(nil), f.Payload...))
+				}
+				c.mu.Unlock()
+				buf = append([]byte(nil), buf[used:]...)
+			}
+			if err != nil {
+				return
+			}
+		}
+	}()
+	return c
+}
+
+func (c *srvConn) push(frame []byte) {
+	if c.sm != nil {
+		c.sm.Push(frame)
+		return
+	}
+	if c.tc != nil {
+		c.tc.SetWriteDeadline(time.Now().Add(5 * time.Second))
+		c.tc.Write(wire.AppendFrame(nil, frame))
+	}
+}
+
+func (c *srvConn) end(reset bool) {
+	if c.sm != nil {
+		if reset {
+			c.sm.PushErr(fmt.Errorf("connection reset by peer"))
+		} else {
+			c.sm.PushErr(io.EOF)
+		}
+		return
+	}
+	if c.tc != nil {
+		if t, ok := c.tc.(*net.TCPConn); ok && reset {
+			t.SetLinger(0)
+		}
+		c.tc.Close()
+	}
+}
+
+func (c *srvConn) written() [][]byte {
+	if c.sm != nil {
+		ws := c.sm.Writes()
+		out := make([][]byte, len(ws))
+		for i, w := range ws {
+			out[i] = w.Frame
+		}
+		return out
+	}
+	c.mu.Lock()
+	defer c.mu.Unlock()
+	return append([][]byte(nil), c.frames...)
+}
+
 // probe sends a well-formed request and waits for the right response.
 func (c *srvConn) probe(hdr string, n int) string {
 	c.n++
 	seq := uint64(5_000_000 + c.n)
 	args := svc.Build(svc.Spec{Run: 8, Conn: 1, Caller: 1, Counter: uint64(n), ReplyLen: 11})
-	c.sm.Push(wire.EncodeReq(hdr, wire.Req{Seq: seq, Method: "S.B0", Args: args}))
+	c.push(wire.EncodeReq(hdr, wire.Req{Seq: seq, Method: "S.B0", Args: args}))
 	want := svc.Reply(args)
-	ok := waitFor(func() bool {
-		ws := c.sm.Writes()
-		for i := len(ws) - 1; i >= 0 && i >= len(ws)-64; i-- {
-			r, err := wire.DecodeRes(hdr, ws[i].Frame, false)
+	find := func() (wire.Res, bool) {
+		ws := c.written()
+		for i := len(ws) - 1; i >= 0 && i >= len(ws)-256; i-- {
+			r, err := wire.DecodeRes(hdr, ws[i], false)
 			if err == nil && r.Seq == seq {
-				return true
+				return r, true
 			}
 		}
-		return false
-	}, 20*time.Second)
-	if !ok {
-		return "no response to a well-formed probe within 20 s"
+		return wire.Res{}, false
 	}
-	ws := c.sm.Writes()
-	for i := len(ws) - 1; i >= 0; i-- {
-		r, err := wire.DecodeRes(hdr, ws[i].Frame, false)
-		if err == nil && r.Seq == seq {
-			if r.Error != "" || !bytes.Equal(r.Reply, want) {
-				return fmt.Sprintf("probe answered wrongly: error %q, reply %d bytes (want %d)", r.Error, len(r.Reply), len(want))
-			}
-			return ""
-		}
+	if !waitFor(func() bool { _, ok := find(); return ok }, 6*time.Second) {
+		return "no response to a well-formed probe within 6 s"
 	}
-	return "probe response vanished"
+	r, _ := find()
+	if r.Error != "" || !bytes.Equal(r.Reply, want) {
+		return fmt.Sprintf("probe answered wrongly: error %q, reply %d bytes (want %d)", r.Error, len(r.Reply), len(want))
+	}
+	return ""
 }
 
 func hostileWorker(a Args) {
@@ -279,15 +364,33 @@ func hostileWorker(a Args) {
 	}
 	inputs := mutate(x.Hdr, reqCorpus(x.Hdr), x.Full, rng, true)
 	server, _ := newHostileServer(x.Mode)
-	healthy := serveScripted(server, x.Hdr, x.Mode == 2)
-	cur := serveScripted(server, x.Hdr, x.Mode == 2)
+	newConn := func() *srvConn { return serveScripted(server, x.Hdr, x.Mode == 2) }
+	if x.Poll {
+		server.SetPoll(true)
+		addr := newAddr("tcp")
+		opts := &rpc.Options{Network: "tcp", NewCodec: func() rpc.Codec { return &rpc.BYTESCodec{} }, NewHeaderEncoder: svc.NewEncoder(x.Hdr)}
+		go server.ListenWithOptions(addr, opts)
+		newConn = func() *srvConn { return dialRaw(addr) }
+		time.Sleep(50 * time.Millisecond)
+		// warm-up (see startReal)
+		for i := 0; i < 5; i++ {
+			w := newConn()
+			if w.probe(x.Hdr, 0) == "" {
+				w.end(false)
+				break
+			}
+			w.end(false)
+		}
+	}
+	healthy := newConn()
+	cur := newConn()
 	inBatch := 0
 	fams := map[string]int{}
 	problems := 0
 	for i := x.Skip; i < len(inputs) && (x.Limit == 0 || i < x.Limit); i++ {
 		in := inputs[i]
 		mon.Progress("hostile-worker", fmt.Sprintf("%d %s %s", i, in.fam, hex.EncodeToString(in.frame[:min(len(in.frame), 96)])))
-		cur.sm.Push(in.frame)
+		cur.push(in.frame)
 		fams[strings.SplitN(in.fam, "/", 2)[0]]++
 		inBatch++
 		if x.Slow {
@@ -302,10 +405,14 @@ func hostileWorker(a Args) {
 					What: fmt.Sprintf("after hostile frame #%d (%s) on the same connection: %s", i, in.fam, p), FSig: "C08/server/same-conn-probe/" + x.Hdr,
 					Witness: map[string]string{"frame": hex.EncodeToString(in.frame[:min(len(in.frame), 200)])}})
 				// the connection may legitimately be wedged by a hostile frame; move on
-				cur.sm.PushErr(io.EOF)
-				cur = serveScripted(server, x.Hdr, x.Mode == 2)
+				cur.end(false)
+				cur = newConn()
 				inBatch = 0
 			}
+		}
+		if problems >= 4 {
+			mon.Note("hostile-worker", "well-formed probes keep failing; the remaining inputs of this configuration are not delivered")
+			break
 		}
 		if inBatch >= 160 {
 			if p := healthy.probe(x.Hdr, i); p != "" && problems < 20 {
@@ -313,42 +420,40 @@ func hostileWorker(a Args) {
 				mon.Emit(mon.Result{T: "case", Engine: "hostile", Case: fmt.Sprintf("server/%s/mode%d/%s", x.Hdr, x.Mode, in.fam), Verdict: mon.Violated, Prop: "C08",
 					What: fmt.Sprintf("after hostile frames up to #%d: healthy connection: %s", i, p), FSig: "C08/server/other-conn-probe/" + x.Hdr})
 			}
-			cur.sm.PushErr(io.EOF)
+			cur.end(false)
 			select {
 			case <-cur.done:
 			case <-time.After(20 * time.Second):
 				// stream handlers opened by hostile frames keep ServeCodec's tail waiting only if unary handlers hang
 			}
-			cur = serveScripted(server, x.Hdr, x.Mode == 2)
+			cur = newConn()
 			inBatch = 0
 		}
 	}
-	healthy.probe(x.Hdr, 0)
-	if x.Limit > 0 {
+	if problems < 4 {
+		healthy.probe(x.Hdr, 0)
+	}
+	if x.Limit > 0 || problems >= 4 {
 		time.Sleep(20 * time.Millisecond)
 		return
 	}
 	// bursts of well-formed requests followed at once by a disconnect
 	for b := 0; b < x.Bursts; b++ {
 		mon.Progress("hostile-worker", fmt.Sprintf("%d burst/%d", len(inputs)+b, b))
-		c := serveScripted(server, x.Hdr, x.Mode == 2)
+		c := newConn()
 		n := 1 + rng.Intn(64)
 		for k := 0; k < n; k++ {
 			sp := svc.Spec{Run: 8, Conn: 2, Caller: uint32(b), Counter: uint64(k), DelayUs: uint32(rng.Intn(3) * rng.Intn(300)), Fill: rng.Intn(200)}
 			switch rng.Intn(12) {
 			case 0:
-				c.sm.Push(wire.EncodeReq(x.Hdr, wire.Req{Seq: uint64(k), Upgrade: wire.UpOpen, Method: "T1.SB"}))
+				c.push(wire.EncodeReq(x.Hdr, wire.Req{Seq: uint64(k), Upgrade: wire.UpOpen, Method: "T1.SB"}))
 			case 1:
-				c.sm.Push(wire.EncodeReq(x.Hdr, wire.Req{Seq: uint64(k), Upgrade: wire.UpPing}))
+				c.push(wire.EncodeReq(x.Hdr, wire.Req{Seq: uint64(k), Upgrade: wire.UpPing}))
 			default:
-				c.sm.Push(wire.EncodeReq(x.Hdr, wire.Req{Seq: uint64(k), Method: fmt.Sprintf("S.B%d", k%4), Args: svc.Build(sp)}))
+				c.push(wire.EncodeReq(x.Hdr, wire.Req{Seq: uint64(k), Method: fmt.Sprintf("S.B%d", k%4), Args: svc.Build(sp)}))
 			}
 		}
-		if rng.Intn(2) == 0 {
-			c.sm.PushErr(io.EOF)
-		} else {
-			c.sm.PushErr(fmt.Errorf("connection reset by peer"))
-		}
+		c.end(rng.Intn(2) == 0)
 		fams["burst"]++
 		if b%16 == 15 {
 			if p := healthy.probe(x.Hdr, b); p != "" && problems < 20 {
@@ -487,6 +592,10 @@ func hostileClientWorker(a Args, x hostileExtra, rng *rand.Rand) {
 	}
 	for i := x.Skip; i < len(inputs) && (x.Limit == 0 || i < x.Limit); i++ {
 		in := inputs[i]
+		if problems >= 4 {
+			mon.Note("hostile-worker", "well-formed probes keep failing; the remaining inputs of this configuration are not delivered")
+			break
+		}
 		if cur == nil || inBatch >= 120 {
 			if cur != nil {
 				cur.conn.Close()
